@@ -371,6 +371,19 @@ func c18r4(c *Ctx, id string) {
 				ex, ok := v.(*ssa.Extract)
 				return ok && ex.Index == 1 && ex.Tuple == ssa.Value(pc)
 			})
+			// `return parser(s)`: the parser's own (version, error) pair is handed on as it is — the caller's test of
+			// that very error is the success test
+			if pc != nil && !okErr {
+				ev := r.Results[1]
+				if ld, ok := ev.(*ssa.UnOp); ok && ld.Op == token.MUL {
+					if st := singleStoreIn(in.Block(), ld.X); st != nil {
+						ev = st // (defer-spilled result cell)
+					}
+				}
+				if ex, ok := unwrap(ev).(*ssa.Extract); ok && ex.Index == 1 && ex.Tuple == ssa.Value(pc) {
+					okErr = true
+				}
+			}
 			c.Check(okSrc && okErr, id, construct, in.Pos(), "returns the parser's result for the reported implementationVersion, under the parser's err == nil",
 				fmt.Sprintf("returns the version %s: not the parse of the server's implementationVersion under its success test (from the parser on that string: %v, under err == nil: %v) — the feature gates would be evaluated on an invented version", o, okSrc, okErr))
 		})
